@@ -140,11 +140,33 @@ func (sr *subRec) snapshotClosed() bool {
 }
 
 func (sr *subRec) wait(d time.Duration) {
+	if closeMissed.Load() {
+		d = 20 * time.Millisecond
+	}
 	select {
 	case <-sr.done:
 	case <-time.After(d):
+		closeMissed.Store(true)
 	}
 }
+
+// waitAll waits for every subscriber's close with one shared deadline
+func waitAll(subs []*subRec, d time.Duration) {
+	if closeMissed.Load() {
+		d = 20 * time.Millisecond // a close was already missed in this batch: do not wait long again
+	}
+	dl := time.After(d)
+	for _, s := range subs {
+		select {
+		case <-s.done:
+		case <-dl:
+			closeMissed.Store(true)
+			return
+		}
+	}
+}
+
+var closeMissed atomic.Bool
 
 func (sr *subRec) String(uhi int) string {
 	sr.mu.Lock()
